@@ -572,6 +572,9 @@ M("learn-copy-only-first", ["C17"], SUP,
   "                            X_val[err, :].copy(),\n                            X_train[j, :].copy(),\n",
   "                            X_val[err, :].copy(),\n                            X_train[j, :],\n")
 M("learn-revert-self-rebind", ["C17"], SUP, "                self.__dict__.update(best_opf.__dict__)", "                self = best_opf")
+M("learn-snapshot-after-exchange", ["C17"], SUP,
+  '            if acc > max_acc:\n                max_acc = acc\n                best_opf = copy.deepcopy(self)\n                best_t = t\n\n            errors = np.argwhere(Y_val != preds).flatten()\n\n            non_prototypes = 0\n            for n in self.subgraph.nodes:\n                if n.status != c.PROTOTYPE:\n                    non_prototypes += 1\n\n            for err in errors:\n                ctr = non_prototypes\n\n                while ctr > 0:\n                    j = int(r.generate_uniform_random_number(0, len(X_train))[0])\n\n                    if self.subgraph.nodes[j].status != c.PROTOTYPE:\n                        X_train[j, :], X_val[err, :] = (\n                            X_val[err, :].copy(),\n                            X_train[j, :].copy(),\n                        )\n                        Y_train[j], Y_val[err] = Y_val[err], Y_train[j]\n\n                        non_prototypes -= 1\n                        ctr = 0\n\n                    else:\n                        ctr -= 1\n\n',
+  '            errors = np.argwhere(Y_val != preds).flatten()\n\n            non_prototypes = 0\n            for n in self.subgraph.nodes:\n                if n.status != c.PROTOTYPE:\n                    non_prototypes += 1\n\n            for err in errors:\n                ctr = non_prototypes\n\n                while ctr > 0:\n                    j = int(r.generate_uniform_random_number(0, len(X_train))[0])\n\n                    if self.subgraph.nodes[j].status != c.PROTOTYPE:\n                        X_train[j, :], X_val[err, :] = (\n                            X_val[err, :].copy(),\n                            X_train[j, :].copy(),\n                        )\n                        Y_train[j], Y_val[err] = Y_val[err], Y_train[j]\n\n                        non_prototypes -= 1\n                        ctr = 0\n\n                    else:\n                        ctr -= 1\n\n            if acc > max_acc:\n                max_acc = acc\n                best_opf = copy.deepcopy(self)\n                best_t = t\n\n')
 M("learn-revert-sentinel", ["C17"], SUP, "        max_acc = -1\n", "        max_acc = 0\n")
 M("learn-revert-int-array", ["C17"], SUP,
   "                    j = int(r.generate_uniform_random_number(0, len(X_train))[0])", "                    j = int(r.generate_uniform_random_number(0, len(X_train)))")
